@@ -331,6 +331,26 @@ def run(ctx):
                disc="late-binding")
 
     names_rule(ctx)
+    # ---- the tempered density of the sample classes (log_p_t: L^beta pi^beta q^(1-beta) in the native space) is turned into a kernel target in one place only, the
+    #      sampler's log_prob(), which adds the preconditioning log-Jacobian and maps NaN to -inf.  A kernel that is handed log_p_t() directly (a pre-computed density
+    #      of its starting points, say) compares densities with and without the Jacobian in its first accept / reject.
+    import ast as _ast2
+    n_lpt = 0
+    bad_lpt = []
+    for f_ in repo.all_functions():
+        if not f_.ident.startswith("aspire.samplers"):
+            continue
+        for n_ in walk_no_nested(f_.node):
+            if isinstance(n_, _ast2.Call) and isinstance(n_.func, _ast2.Attribute) and n_.func.attr in ("log_p_t", "log_p"):
+                n_lpt += 1
+                if f_.name != "log_prob":
+                    bad_lpt.append((f_, n_))
+    ctx.floor("uses of the native-space tempered density inside samplers", n_lpt, 2)
+    ctx.decide(not bad_lpt, "C05.id", "aspire.samplers", loc_of(bad_lpt[0][0], bad_lpt[0][1]) if bad_lpt else "src/aspire/samplers",
+               f"the native-space tempered density is used by the samplers' log_prob() target builders only ({n_lpt} uses)",
+               (f"{bad_lpt[0][0].ident} calls {_ast2.unparse(bad_lpt[0][1])[:50]} outside log_prob(): that value lacks log|det dx/dz| of the preconditioning transform (and the NaN map); handed to "
+                "a kernel next to values of log_prob() -- the pre-computed density of the starting points, say -- the first accept / reject of every walker compares two different densities") if bad_lpt else "",
+               disc="native-density")
     # the log|det dx/dz| term is the preconditioning transform's inverse log-Jacobian
     from ..report import reuse
     from . import c04
@@ -408,6 +428,10 @@ MUTANTS += [
 ]
 MUTANTS += [
     M("kernel target builds its sample set without the parameter names", _B, "beta=beta,\n            dtype=self.dtype,\n            parameters=self.parameters,\n        )\n        log_q = self.prior_flow.log_prob(samples.x)", "beta=beta,\n            dtype=self.dtype,\n        )\n        log_q = self.prior_flow.log_prob(samples.x)", "C05.names"),
+]
+
+MUTANTS += [
+    M("emcee is handed a pre-computed starting density without the preconditioning Jacobian", "src/aspire/samplers/smc/emcee.py", "sampler.run_mcmc(z, **kwargs)", "sampler.run_mcmc(emcee.State(z, log_prob=particles.log_p_t(beta)), **kwargs)", "C05.id"),
 ]
 
 NEUTRALS = [
